@@ -222,6 +222,30 @@ struct FlatHolderS<R> {
     r: R,
     tail: String,
 }
+/// A struct holding a handle as an ordinary member.
+#[derive(Serialize)]
+#[serde(bound = "R: Serialize")]
+struct NestedHolder<R> {
+    n: u32,
+    r: R,
+    tail: String,
+}
+#[derive(serde::Deserialize)]
+#[serde(bound = "R: DeserializeOwned")]
+struct NestedHolderD<R> {
+    #[allow(dead_code)]
+    n: u32,
+    r: R,
+    #[allow(dead_code)]
+    tail: String,
+}
+/// A handle as one alternative of an untagged enum (serde buffers the input and replays it to each alternative).
+#[derive(serde::Deserialize)]
+#[serde(untagged, bound = "R: DeserializeOwned")]
+enum EitherRemote<R> {
+    Number(u64),
+    Handle(R),
+}
 #[derive(serde::Deserialize)]
 #[serde(bound = "R: DeserializeOwned")]
 struct FlatHolderD<R> {
@@ -255,8 +279,43 @@ where
         },
         None => Value::Null,
     };
+    // other JSON writers / readers than the on-chain one: what clients, scripts and tests use, and what an enclosing
+    // untagged enum or the contract-level wrapper (a self-describing value in between) hands to the handle's Deserialize
+    let un = |r: Result<String, serde_json::Error>| r.unwrap_or_else(|e| format!("ERR {e}"));
+    let nested = NestedHolder { n: 7, r: Remote::<'static, T>::new(addr.clone()), tail: "t".to_owned() };
+    let writers = json!({
+        "serde_json::to_string/owned": un(serde_json::to_string(&owned)),
+        "serde_json::to_string/borrowed": un(serde_json::to_string(&borrowed)),
+        "serde_json::to_vec": un(serde_json::to_vec(&borrowed).map(|v| String::from_utf8_lossy(&v).into_owned())),
+        "serde_json::to_string_pretty": un(serde_json::to_string_pretty(&owned)),
+        "cosmwasm_std::to_json_string": cosmwasm_std::to_json_string(&owned).unwrap_or_else(|e| format!("ERR {e}")),
+        "nested/serde_json::to_string": un(serde_json::to_string(&nested)),
+        "nested/cosmwasm_std::to_json_string": cosmwasm_std::to_json_string(&nested).unwrap_or_else(|e| format!("ERR {e}")),
+    });
+    let show = |r: Result<Remote<'static, T>, String>| match r {
+        Ok(r) => json!({"ok": AsRef::<Addr>::as_ref(&r).as_str()}),
+        Err(e) => json!({"err": e}),
+    };
+    let mut readers = serde_json::Map::new();
+    for (tag, t) in [("plain", Some(text)), ("escaped", a["text_escaped"].as_str())] {
+        let Some(t) = t else { continue };
+        readers.insert(format!("{tag}/cosmwasm_std::from_json"), show(from_json::<Remote<'static, T>>(t.as_bytes()).map_err(|e| e.to_string())));
+        readers.insert(format!("{tag}/serde_json::from_str"), show(serde_json::from_str::<Remote<'static, T>>(t).map_err(|e| e.to_string())));
+        readers.insert(format!("{tag}/serde_json::from_reader"), show(serde_json::from_reader::<_, Remote<'static, T>>(t.as_bytes()).map_err(|e| e.to_string())));
+        readers.insert(format!("{tag}/serde_json::from_value"), show(serde_json::from_str::<Value>(t).and_then(serde_json::from_value::<Remote<'static, T>>).map_err(|e| e.to_string())));
+        readers.insert(format!("{tag}/untagged-enum"), show(from_json::<EitherRemote<Remote<'static, T>>>(t.as_bytes()).map_err(|e| e.to_string()).and_then(|e| match e {
+            EitherRemote::Handle(r) => Ok(r),
+            EitherRemote::Number(n) => Err(format!("decoded as number {n}")),
+        })));
+        readers.insert(format!("{tag}/serde_value"), show(from_json::<sylvia::serde_value::Value>(t.as_bytes()).map_err(|e| e.to_string())
+            .and_then(|v| v.deserialize_into::<Remote<'static, T>>().map_err(|e| e.to_string()))));
+        readers.insert(format!("{tag}/nested/serde_json::from_str"), show(serde_json::from_str::<NestedHolderD<Remote<'static, T>>>(&format!("{{\"n\":7,\"r\":{t},\"tail\":\"t\"}}"))
+            .map(|h| h.r).map_err(|e| e.to_string())));
+    }
     let schema = schemars::schema_for!(Remote<'static, T>);
     json!({"res": {"ok": {
+        "writers": writers,
+        "readers": Value::Object(readers),
         "owned": crate::j(&owned),
         "borrowed": crate::j(&borrowed),
         "owned_as_ref": AsRef::<Addr>::as_ref(&owned).as_str(),
